@@ -22,6 +22,7 @@ CONSTANTS Producers, K, Shapes, MaxFaults, MaxCrashes, MaxIdxLoss, InlineAt, Int
           DevOrphanAlwaysSkipped,\* restart silently skips any segment without index
           DevNoFlushOnAck,       \* reply success without Flush
           DevTolerateLostIdx,    \* restart keeps a committed segment whose index object is gone, without index entries
+          DevReadFloorSegment,   \* Read picks the last segment starting at or below the offset (binary search) and checks the upper bound only for the last one
           DevRestoreCountsOrphan \* restart takes the log end from the last listed segment object, even one skipped as an orphan
 VARIABLES mem, up, rfail, restarted, s3seg, s3idx, storeNext, pc, stage, req, art, segUp, idxUp, pubVal, sent,
           faults, crashes, acked, hwReg, nextReg, hwMax, lost, hist
@@ -63,9 +64,12 @@ Append_(p, sh) ==
           /\ UNCHANGED <<mem, art, segUp, idxUp, stage, nextReg, lost>>
      ELSE LET lod == IF sh.kind = "neglod" THEN -2 ELSE IF sh.kind = "maxlod" THEN BigLod ELSE sh.n - 1
               b == [id |-> <<p, sent[p] + 1>>, base |-> mem.next, cnt |-> IF sh.kind = "maxlod" THEN BigLod + 1 ELSE sh.n, msgs |-> sh.n, lod |-> lod,
-                    sz |-> IF sh.kind = "concat" THEN 2 * Sz(sh.n) ELSE Sz(sh.n), kind |-> sh.kind]
+                    sz |-> Sz(sh.n), kind |-> sh.kind]
+              \* an accepted payload of two concatenated batches: only the first header is patched with the assigned base offset,
+              \* the second batch is stored behind it exactly as the client sent it (base offset 0)
+              trail == [id |-> <<p, sent[p] + 101>>, base |-> 0, cnt |-> sh.n, msgs |-> sh.n, lod |-> sh.n - 1, sz |-> Sz(sh.n), kind |-> "trail"]
               nx == mem.next + lod + 1
-              buf1 == Append(mem.buf, b)
+              buf1 == IF sh.kind = "concat" THEN mem.buf \o <<b, trail>> ELSE Append(mem.buf, b)
               inline == InlineAt > 0 /\ Len(buf1) >= InlineAt /\ ~mem.flushing
           IN /\ req' = [req EXCEPT ![p] = b]
              /\ nextReg' = (nextReg \/ nx < mem.next)
@@ -275,9 +279,11 @@ FromB(bs, i, o, mb, acc) ==
   ELSE FromB(bs, i + 1, o, mb, Append(acc, bs[i]))
 S3Obj(base) == CHOOSE o \in s3seg : o.base = base
 ReadSpec(o, mb) ==
-  LET cand == {i \in 1..Len(mem.segs) : mem.segs[i].last >= o} IN
+  LET cand == {i \in 1..Len(mem.segs) : mem.segs[i].last >= o}
+      le == {i \in 1..Len(mem.segs) : mem.segs[i].base <= o}
+      pick == IF DevReadFloorSegment /\ le # {} THEN MaxOf(le) ELSE MinOf(cand) IN
   IF cand # {}
-  THEN LET s == mem.segs[MinOf(cand)]
+  THEN LET s == mem.segs[pick]
            off == IF o >= s.base THEN o ELSE s.base
        IN IF ~\E x \in s3seg : x.base = s.base THEN [kind |-> "err"]
           ELSE LET bs == S3Obj(s.base).batches
